@@ -15,7 +15,7 @@ pub fn __abs_total(strat: &[f64], thresh: f64) -> (r: f64) { unimplemented!() }"
              as_fn="truncate__per_infoset", params="strat: &mut [f64], thresh: f64",
              obligation="C18.V.truncate.rescale",
              table=[
-                 (r"^let total: f64 = strat\.iter\(\)\.filter\(", ("abstract", "let total: f64 = __abs_total(strat, thresh);")),
+                 (r"^let total: f64 = strat\.iter\(\)\.filter\(\|p\| p > &&thresh\)\.sum\(\);$", ("abstract", "let total: f64 = __abs_total(strat, thresh);")),
                  (r"^if total > 0\.0 \{", "keep"),
              ],
              contract="""ensures
